@@ -457,6 +457,9 @@ func spec_ctxOf(e Executor) *gengoCtx { c, _ := e.(*gengoCtx); return c }
 
 //@ func gengoCtx.Render
 //@   props C01 C09
+//@   effects
+//@   assigns *
+//@   preserves pkg/gengo/snippet. pkg/gengo. pkg/types.Universe. go/ast. go/token. golang.org/x/tools/go/packages. except pkg/gengo.gengoCtx.defers, pkg/gengo.gengoCtx.ignore
 //@   requires c != nil && c.genfile != nil && c.genfile.SnippetWriter != nil
 //@   ensures len(spec_calls()) == len(old(spec_calls()))+1
 //@   ensures spec_calls()[len(spec_calls())-1].Kind == spec_Rendered
@@ -467,6 +470,9 @@ func spec_ctxOf(e Executor) *gengoCtx { c, _ := e.(*gengoCtx); return c }
 
 //@ func gengoCtx.RenderT
 //@   props C01 C09
+//@   effects
+//@   assigns *
+//@   preserves pkg/gengo/snippet. pkg/gengo. pkg/types.Universe. go/ast. go/token. golang.org/x/tools/go/packages. except pkg/gengo.gengoCtx.defers, pkg/gengo.gengoCtx.ignore
 //@   requires c != nil && c.genfile != nil && c.genfile.SnippetWriter != nil
 //@   ensures len(spec_calls()) == len(old(spec_calls()))+1 && spec_calls()[len(spec_calls())-1].Kind == spec_Rendered && spec_calls()[len(spec_calls())-1].Gen == old(c.genfile.SnippetWriter)
 //@   ensures snippet.Spec_templateFormat(spec_calls()[len(spec_calls())-1].Obj.(snippet.Snippet)) == template
